@@ -108,7 +108,9 @@ func (t *TypeType) IsAssignable(o px.Type, g px.Guard) bool {
 
 func (t *TypeType) IsInstance(o px.Value, g px.Guard) bool {
 	if ot, ok := o.(px.Type); ok {
-		return GuardedIsAssignable(t.typ, ot, g)
+		// g guards the instance checks in progress; the pair (alias, type value) of one of those must not be taken for
+		// the pair (alias, type) of an assignability check in progress, so this question gets a guard of its own
+		return GuardedIsAssignable(t.typ, ot, nil)
 	}
 	return false
 }
